@@ -171,6 +171,30 @@ def run(P: Program, rep: Report):
                     badc.setdefault(f"{k1}-then-{k2}", f"{MW[k2]} after {MW[k1]} on {v!r} gives {res[1][1]!r}, {MW[k2]} alone gives {res[2][1]!r}")
                 elif res[0] == "raise":
                     badc.setdefault(f"{k1}-then-{k2}:raises", f"{MW[k2]} after {MW[k1]} on {v!r} raises {res[1].cls_name()}")
+    # a middleware applied again after a different one (A, B, A) must still equal A alone
+    tri_vals = [1, "3", "jan", "MAY", "December", "13", "foo"] if rep.tier != "thorough" else comp_vals
+    for k1, k2 in itertools.permutations(MW, 2):
+        for v in tri_vals:
+            def one3(ctx):
+                it = driver_interp(P, ctx, "middlewares.month")
+                f = new_obj(it, P, "model", "Field", key="month", value=v, start_line=1)
+                e = new_obj(it, P, "model", "Entry", entry_type="a", key="k", fields=AList([f]), start_line=0, raw="r")
+                try:
+                    for kk in (k1, k2, k1):
+                        out = call(it, it.construct(classes[kk], [], {}), "transform_entry", e, Unknown("library"))
+                        if out is not e:
+                            return ("skip",)
+                    got = it.get_attr(it.iterate(it.get_attr(e, "fields"))[0], "value")
+                    return ("value", got)
+                except Raised as r:
+                    return ("raise", r)
+            for ctx, res in explore(one3, 20):
+                nc += 1
+                want = expected(k1, v)
+                if res[0] == "value" and not (res[1] == want and type(res[1]) is type(want)):
+                    badc.setdefault(f"{k1}-{k2}-{k1}", f"{MW[k1]}, {MW[k2]}, {MW[k1]} in a row on {v!r} gives {res[1]!r}, {MW[k1]} alone gives {want!r}")
+                elif res[0] == "raise":
+                    badc.setdefault(f"{k1}-{k2}-{k1}:raises", f"{MW[k1]}, {MW[k2]}, {MW[k1]} on {v!r} raises {res[1].cls_name()}")
     rep.count("composition_rows", nc)
     for k, msg in sorted(badc.items()):
         rep.fail("C15.R5", f"composition:{k}", mod.relpath, msg)
